@@ -32,7 +32,8 @@ def task_functions(definition):
     return sorted(set(out))
 
 
-def install_workers(w, definition, oracle_spec, extra_fns=()):
+def install_workers(w, definition, oracle_spec, extra_fns=(), dup_replies=0):
+    """dup_replies > 0: every worker reply is sent a second time that many seconds later (a worker that answers twice)."""
     oracle = ri.TaskOracle(copy.deepcopy(oracle_spec))
     w.oracle = oracle
     for fn in list(task_functions(definition)) + list(extra_fns):
@@ -45,8 +46,10 @@ def install_workers(w, definition, oracle_spec, extra_fns=()):
                 return []
             delay = o.get("delay", 0)
             if "err" in o:
-                return [(delay, {"errorType": o["err"], "errorMessage": o.get("msg", "")})]
-            return [(delay, oracle.value_of(o, payload))]
+                reply = {"errorType": o["err"], "errorMessage": o.get("msg", "")}
+            else:
+                reply = oracle.value_of(o, payload)
+            return [(delay, reply)] + ([(delay + dup_replies, reply)] if dup_replies else [])
         w.add_worker(fn, script)
 
 
